@@ -130,6 +130,31 @@ func readAllSeq(path string, bufSize int, direct bool, limit int) []recOut {
 	return out
 }
 
+// the same through NewFileReaderWithFile (the reader takes over an open file; default buffer size)
+func readAllSeqWithFile(path string, limit int) []recOut {
+	f, err := os.Open(path)
+	if err != nil {
+		return []recOut{{Err: "Open:" + classifyErr(err)}}
+	}
+	r, err := recordio.NewFileReaderWithFile(f)
+	if err != nil {
+		return []recOut{{Err: "Open:" + classifyErr(err)}}
+	}
+	defer r.Close()
+	if err := r.Open(); err != nil {
+		return []recOut{{Err: "Open:" + classifyErr(err)}}
+	}
+	var out []recOut
+	for i := 0; i < limit; i++ {
+		b, err := r.ReadNext()
+		out = append(out, mkRec(b, err, false))
+		if err != nil {
+			break
+		}
+	}
+	return out
+}
+
 // mixed read/skip program; true = ReadNext, false = SkipNext; stops at first error
 func readMixed(path string, bufSize int, prog []bool) []recOut {
 	r, err := recordio.NewFileReader(recordio.ReaderPath(path), recordio.ReaderBufferSizeBytes(bufSize))
